@@ -73,7 +73,9 @@ Inductive expr :=
 | EAnd (a b : expr) | EOr (a b : expr)       (* short-circuit && and || *)
 | EIsNull (p : expr)                         (* p == NULL *)
 | ENull
-| EPtrVar (p : expr).                        (* value of the pointer-valued member variable at address p *)
+| EPtrVar (p : expr)                         (* value of the pointer-valued member variable at address p *)
+| EPtrEq (a b : expr)                        (* a == b for two pointers (same object and offset, or both null) *)
+| EPtrCell (p : expr).                       (* value of the pointer stored at address p inside an object (key ptr_key) *)
 
 Inductive stmt :=
 | SSkip
@@ -94,8 +96,9 @@ Inductive stmt :=
 | SDelete (p : expr)
 | SPrim (ret : option string) (name : string) (args : list expr)
 | SSetPtr (p : expr) (e : expr)              (* pointer-valued member variable at address p := e *)
-| SNewObj (x : string) (cls : string) (objs : list (string * ity * Z)) (ctor : option string) (args : list expr).
+| SNewObj (x : string) (cls : string) (objs : list (string * ity * Z)) (ctor : option string) (args : list expr)
                                              (* x = new cls(args): a fresh object prefix with the members objs, its dynamic class, then the constructor *)
+| SSetPtrCell (p : expr) (e : expr).         (* the pointer stored at address p inside an object := e *)
 
 Record func := { f_params : list string; f_body : stmt }.
 Definition program := list (string * func).
@@ -195,6 +198,20 @@ Definition with_ptrs (s : state) (p : list (string * value)) : state :=
 Definition with_files (s : state) (f : list (string * cfile)) : state :=
   {| mem := mem s; loc := loc s; pre := pre s; files := f; ptrs := ptrs s; fresh := fresh s |}.
 
+Definition nat_string (n : nat) : string :=
+  (fix go (k : nat) (n : nat) (acc : string) {struct k} : string :=
+     match k with
+     | O => acc
+     | S k' => let d := String (Ascii.ascii_of_nat (48 + Nat.modulo n 10)) acc in
+               if Nat.eqb (Nat.div n 10) 0 then d else go k' (Nat.div n 10) d
+     end) (S n) n EmptyString.
+
+Definition class_key (pfx : string) : string := ("class:" ++ pfx)%string.
+(* pointer-valued variables live in ptrs under the name of their object; at a non-zero offset inside an object (a pointer
+   member of a POD struct on the heap, `res->fp`) under "<object>@<offset>" *)
+Definition z_string (z : Z) : string := if z <? 0 then ("-" ++ nat_string (Z.to_nat (- z)))%string else nat_string (Z.to_nat z).
+Definition ptr_key (o : string) (off : Z) : string := if off =? 0 then o else (o ++ "@" ++ z_string off)%string.
+
 Definition as_int (v : value) : res Z := match v with VInt z => Ok z | _ => UB "integer expected" end.
 
 Definition eval_bin (t : ity) (op : binop) (a b : Z) : res Z :=
@@ -261,6 +278,19 @@ Fixpoint eval (s : state) (e : expr) : res value :=
   | EIsNull p => do v <- eval s p;
                  match v with VNull => Ok (VInt 1) | VPtr _ _ => Ok (VInt 0) | VInt _ => UB "null test of an integer" end
   | ENull => Ok VNull
+  | EPtrEq a b =>
+      do av <- eval s a; do bv <- eval s b;
+      match av, bv with
+      | VPtr o1 f1, VPtr o2 f2 => Ok (VInt (if String.eqb o1 o2 && (f1 =? f2) then 1 else 0))
+      | VNull, VNull => Ok (VInt 1)
+      | VNull, VPtr _ _ | VPtr _ _, VNull => Ok (VInt 0)
+      | _, _ => UB "comparison of a pointer with an integer"
+      end
+  | EPtrCell p => do v <- eval s p;
+                  match v with
+                  | VPtr o off => match lget (ptrs s) (ptr_key o off) with Some pv => Ok pv | None => UB ("unset pointer cell " ++ o)%string end
+                  | _ => UB "pointer cell of a non-object"
+                  end
   | EPtrVar p => do v <- eval s p;
                  match v with
                  | VPtr o _ => match lget (ptrs s) o with Some pv => Ok pv | None => UB ("unset pointer member " ++ o)%string end
@@ -332,13 +362,6 @@ Fixpoint bind_params (ps : list string) (vs : list value) : res (list (string * 
 Definition stream_of (v : value) : res string :=
   match v with VPtr o _ => Ok o | _ => UB "stream expected" end.
 
-Definition nat_string (n : nat) : string :=
-  (fix go (k : nat) (n : nat) (acc : string) {struct k} : string :=
-     match k with
-     | O => acc
-     | S k' => let d := String (Ascii.ascii_of_nat (48 + Nat.modulo n 10)) acc in
-               if Nat.eqb (Nat.div n 10) 0 then d else go k' (Nat.div n 10) d
-     end) (S n) n EmptyString.
 
 (* bytes of a list of cells of width w (little-endian) and back *)
 Definition cells_bytes (w : nat) (cells : list Z) : list Z := flat_map (fun c => le_bytes w (c mod 2 ^ (8 * Z.of_nat w))) cells.
@@ -360,7 +383,6 @@ Fixpoint alloc_objs (cls pfx : string) (l : list (string * ity * Z)) (m : memory
                 end in
       alloc_objs cls pfx r (mset m (pfx ++ name) {| o_ty := t; o_cells := repeat 0 (Z.to_nat n') |})
   end.
-Definition class_key (pfx : string) : string := ("class:" ++ pfx)%string.
 Fixpoint strlen_from (fuel : nat) (l : list Z) : option nat :=
   match l with
   | [] => None
@@ -622,6 +644,12 @@ Fixpoint exec (fuel : nat) (st : stmt) (s : state) {struct fuel} : res (outcome 
           match pv with
           | VPtr o _ => Ok (Normal, with_ptrs s (lset (ptrs s) o ev))
           | _ => UB "pointer member of a non-object"
+          end
+      | SSetPtrCell p e =>
+          do pv <- eval s p; do ev <- eval s e;
+          match pv with
+          | VPtr o off => Ok (Normal, with_ptrs s (lset (ptrs s) (ptr_key o off) ev))
+          | _ => UB "pointer cell of a non-object"
           end
       end
   end.
